@@ -713,7 +713,6 @@ func ruleYAMLStrictness(w *World, r *Run, rule string) {
 	}
 }
 
-
 // ruleClientReadsWholeBody: the bundled HTTP client's read mapping (C16.c) under another property's label.
 func ruleClientReadsWholeBody(w *World, r *Run, rule string) {
 	sub := newRun(r.Prop, r.Tier, r.Seed)
@@ -761,7 +760,6 @@ func ruleFeederAs(w *World, r *Run, rule string) {
 		r.Undecided(rule, fnFeedOnce, "", "the feeder's anchoring rule produced no verdict")
 	}
 }
-
 
 // configValue: the SSA value is computed from constants, package variables, parameters that are not network objects, and
 // fields reached from those — never from the result of a call.
